@@ -67,8 +67,12 @@ func monitor(prop string, h *History, res *common.Result) {
 		restartMonitor(prop, h, res)
 	case "C12":
 		paramMonitor(prop, h, res)
+		leaseMonitor(prop, h, res) // "an absent or zero lock timeout means none", by the same plain arithmetic as C04
 	case "C13":
 		gcIdleMonitor(prop, h, res)
+		gcKeepsMonitor(prop, h, res)
+	case "C07":
+		gcKeepsMonitor(prop, h, res)
 	case "C06":
 		sessionEndSeqMonitor(prop, h, res)
 	}
@@ -712,6 +716,45 @@ func gcIdleMonitor(prop string, h *History, res *common.Result) {
 				}
 			}
 		}
+	}
+}
+
+// gcKeepsMonitor: the converse of gcIdleMonitor. With nothing in flight, an explicit collection pass
+// removes every lock that has no holder, no waiter and has been idle for longer than the pass's
+// minimum idle time (the collector's own rule, read from the real idle clocks). A record that survives
+// is pinned by a reference some earlier request left behind; if that request FAILED this is C07's
+// "a failed request leaves no trace", otherwise it is reported for C13 only.
+func gcKeepsMonitor(prop string, h *History, res *common.Result) {
+	failedOn := map[string]string{}
+	for i := range h.Steps {
+		s := &h.Steps[i]
+		if h.TieAt >= 0 && i >= h.TieAt || strings.HasPrefix(s.Impl, "panic ") || strings.HasPrefix(s.Impl, "start-failed ") {
+			return
+		}
+		if s.Op.Kind == "restart" || s.Op.Kind == "restartwith" {
+			failedOn = map[string]string{}
+			continue
+		}
+		if isRequest(s.Op.Kind) && s.Resp.Err != "-" && s.Resp.Err != "" && s.Op.Name != "" {
+			failedOn[s.Op.Name] = s.Op.Line() + " (" + s.Resp.Err + ")"
+		}
+		if s.Op.Kind != "gc" {
+			continue
+		}
+		for name, l := range s.View.Table {
+			if len(l.Keys) != 0 || s.Now-l.La <= s.Op.D || strings.Contains(s.View.P, impl.Tok(name)) {
+				continue
+			}
+			if f, ok := failedOn[name]; ok {
+				viol(res, prop, "seq:inert:gc-reference-left", fmt.Sprintf("lock %q has no holder and no waiter and has been idle for %d ns, yet the collection pass %q (minimum idle %d ns) kept it: a request left a reference behind; the last failed request on that name was %s", name, s.Now-l.La, s.Op.Line(), s.Op.D, f), h, i, nil)
+				return
+			}
+			if prop == "C13" {
+				viol(res, prop, "seq:gc:idle-record-kept", fmt.Sprintf("lock %q has no holder and no waiter and has been idle for %d ns, yet the collection pass %q (minimum idle %d ns) kept it", name, s.Now-l.La, s.Op.Line(), s.Op.D), h, i, nil)
+				return
+			}
+		}
+		_ = i
 	}
 }
 
